@@ -18,6 +18,7 @@ CFG = dict(
                  "the history of the interpreter before the program is evaluated (fresh, after a successful / cancelled / non-compiling / panicking evaluation) is compared behaviourally: the program must print the same marks as on a fresh interpreter; the models have no notion of history",
                  "a blank variable is modelled as a variable with a fresh identifier that nothing refers to; the identifier '_' that its declaration mentions is modelled as a misleading occurrence (RX) of the variable owning yaegi's single symbol '_' (the last 'var ..., _, ... = e' declaration, none when the last declaration with a blank is 'var _, x = f()'): that rule is computed by the harness and validated behaviourally (Y must predict yaegi on every case), it is not derived in Coq",
                  "explicit types in declarations (var x int = e) are a rendering dimension only: compared behaviourally, absent from the models",
+                 "the names of the files of a multi-file package (drawn from pools whose byte order differs from the case-folded, numeric and writing order; 2-4 files; EvalPath on fstest.MapFS and on a real directory) are a rendering dimension: both models receive the declaration list in byte-sorted file-name order, the order in which the go tool presents the files to the compiler",
                  "constants, cross-package variable references and interface method calls carry no initialisation dependency in either model; the generator does not produce constants",
                  "function bodies that read a variable declared by 'var x, y = f()' are kept out of the generated programs: yaegi panics in the host on such a read (unrelated to ordering)"],
 )
